@@ -507,4 +507,94 @@ theorem annotatePair_ok_tokens (t : Tags) (m p : Line) (a : Annotated) (h : anno
   · rename_i x y hx hy; exact ⟨x, y, hx, hy⟩
   · cases h
 
+/-! ### no edit operations ⇒ no emphasis -/
+
+theorem annotateStep_noop_tags (t : Tags) (x y : List Tok) (ml pl : List G) (st st1 : AState) (n : Nat)
+    (h : annotateStep t x y ml pl st (.noOp, n) = .ok st1)
+    (hm : st.mPrev = t.noopDel) (hp : st.pPrev = t.noopIns)
+    (ham : ∀ s ∈ st.am, s.tag = t.noopDel) (hap : ∀ s ∈ st.ap, s.tag = t.noopIns) :
+    st1.mPrev = t.noopDel ∧ st1.pPrev = t.noopIns ∧
+      (∀ s ∈ st1.am, s.tag = t.noopDel) ∧ (∀ s ∈ st1.ap, s.tag = t.noopIns) := by
+  simp only [annotateStep] at h
+  split at h
+  · cases h
+  · split at h
+    · cases h
+    · split at h
+      · cases h
+      · injection h with h
+        subst h
+        refine ⟨rfl, rfl, ?_, ?_⟩
+        · intro s hs
+          simp only [List.mem_append, List.mem_singleton] at hs
+          rcases hs with hs | rfl
+          · exact ham s hs
+          · simp only [hm, ite_self]
+        · intro s hs
+          simp only [List.mem_append] at hs
+          rcases hs with hs | hs
+          · exact hap s hs
+          · rw [plusSections_tag _ _ s hs]
+            simp only [hp, ite_self]
+
+theorem annotateLoop_noop_tags (t : Tags) (x y : List Tok) (ml pl : List G) :
+    ∀ (runs : List (Op × Nat)) (st st' : AState), (∀ r ∈ runs, r.1 = .noOp) →
+      annotateLoop t x y ml pl runs st = .ok st' →
+      st.mPrev = t.noopDel → st.pPrev = t.noopIns →
+      (∀ s ∈ st.am, s.tag = t.noopDel) → (∀ s ∈ st.ap, s.tag = t.noopIns) →
+      (∀ s ∈ st'.am, s.tag = t.noopDel) ∧ (∀ s ∈ st'.ap, s.tag = t.noopIns) := by
+  intro runs
+  induction runs with
+  | nil =>
+    intro st st' _ h _ _ ham hap
+    simp only [annotateLoop] at h
+    injection h with h; subst h
+    exact ⟨ham, hap⟩
+  | cons r rs ih =>
+    intro st st' hr h hm hp ham hap
+    simp only [annotateLoop] at h
+    split at h
+    · cases h
+    · rename_i st1 hs
+      obtain ⟨o, n⟩ := r
+      have ho : o = .noOp := hr (o, n) (by simp)
+      subst ho
+      obtain ⟨h1, h2, h3, h4⟩ := annotateStep_noop_tags t x y ml pl st st1 n hs hm hp ham hap
+      exact ih st1 st' (fun r hr' => hr r (by simp [hr'])) h h1 h2 h3 h4
+
+theorem runLengthEncode_replicate_noOp (n : Nat) :
+    ∀ r ∈ runLengthEncode (List.replicate n Oper.noOp), r.1 = Oper.noOp := by
+  cases n with
+  | zero => simp [runLengthEncode]
+  | succ n =>
+    rw [List.replicate_succ, runLengthEncode]
+    have := rleAux_replicate Oper.noOp 1 n []
+    simp only [List.append_nil] at this
+    rw [this]
+    simp [rleAux]
+
+/-- Lines whose token texts coincide get no section tagged with anything but the no-op tags. -/
+theorem annotatePair_identical (t : Tags) (m p : Line) (x y : List Tok) (a : Annotated)
+    (hx : tokenize m.gs m.spans = .ok x) (hy : tokenize p.gs p.spans = .ok y)
+    (hxy : tokTexts x = tokTexts y) (h : annotatePair t m p = .ok a) :
+    (∀ s ∈ a.minus, s.tag = t.noopDel) ∧ (∀ s ∈ a.plus, s.tag = t.noopIns) := by
+  obtain ⟨_, hxh⟩ := tokenize_partition_aux _ _ _ hx
+  have hne : tokTexts x ≠ [] := by
+    obtain ⟨x', rfl⟩ := head_nil_cons hxh
+    simp [tokTexts]
+  unfold annotatePair at h
+  rw [hx, hy] at h
+  simp only at h
+  unfold coalescedOperations at h
+  rw [operations_eq, ← hxy, opsSpec_self _ hne] at h
+  simp only at h
+  unfold annotateOps at h
+  split at h
+  · cases h
+  · rename_i st hl
+    injection h with h
+    subst h
+    exact annotateLoop_noop_tags t x y m.gs p.gs _ _ st (runLengthEncode_replicate_noOp _) hl rfl rfl
+      (by simp [initState]) (by simp [initState])
+
 end Edits
